@@ -13,7 +13,7 @@ import copy
 from dsim.canon import digest, jdump
 
 PROPERTY = "C16"
-QUICK_RUNS = 3000
+QUICK_RUNS = 2000
 THOROUGH_RUNS = 150000
 RULE = ("scenario = history of 4-20 derivation operations (TypeChecker.redefine/redefine_many/remove incl. unknown "
         "names, extend with keyword overrides/additions and/or a type checker, create with/without version, deprecated "
@@ -75,7 +75,7 @@ def generate(rng, tier="quick"):
     kinds = ["tc_redefine", "tc_redefine_many", "tc_remove", "tc_remove_unknown", "extend_noop", "extend_kw",
              "extend_tc", "extend_kw_tc", "create_clone", "create_plain", "create_version", "create_default_types",
              "create_illegal", "extend_illegal", "instance_types", "fc_new", "fc_subset", "fc_subset_unknown",
-             "fc_checks", "cls_checks", "suspend", "resume"]
+             "fc_checks", "cls_checks", "suspend", "resume", "set_meta"]
     enabled = [k for k in kinds if rng.random() < 0.75] or kinds
     ops = []
     for i in range(n):
@@ -402,6 +402,18 @@ def execute(scn):
                     model_registry = sorted(model_registry + [op["name"]])
                 ok = True
                 shared_touch += 1
+            elif k == "set_meta":
+                # documented in extend(): "modify META_SCHEMA directly on the returned class" (with a copy)
+                own = [o for o in objs if o["kind"] == "class" and o["born"] >= 0]
+                if own:
+                    tgt = own[op["a"] % len(own)]
+                    meta = dict(tgt["obj"].META_SCHEMA)
+                    meta["title"] = "dsim changed at step %d" % step
+                    tgt["obj"].META_SCHEMA = meta
+                    tgt["vec"] = probe_class(tgt["obj"])          # the target itself is *meant* to change
+                    probe_count("derived_class_metaschema_replaced")
+                    ok = True
+                    shared_touch += 1
             elif k == "suspend":
                 owner = pick("class", op["a"])
                 schema = {"items": {"type": "string", "maxLength": 1}, "maxItems": 1, "minimum": 5}
